@@ -147,6 +147,9 @@ type Enum[C any] struct {
 	Check func(c C) (Outcome, error)
 	// Each calls emit for every case of this shard's part of the domain; emit returns false to stop.
 	Each func(shard, shards int, ev *evid.Rec, emit func(c C) bool)
+	// Journal: write every case to the journal before evaluating it (needed where the code under
+	// test starts goroutines: a panic there kills the process, and the driver replays the journal).
+	Journal bool
 }
 
 func RunEnum[C any](t *testing.T, e Enum[C]) {
@@ -163,7 +166,7 @@ func RunEnumWith[C any](t *testing.T, ev *evid.Rec, e Enum[C]) (failed bool) {
 	var n, nt int64
 	samples := 0
 	labels := map[string]int64{}
-	useJournal := os.Getenv("VERIF_JOURNAL") != ""
+	useJournal := e.Journal || os.Getenv("VERIF_JOURNAL") != ""
 	e.Each(evid.ShardIndex(), evid.ShardCount(), ev, func(c C) bool {
 		if useJournal {
 			journal(e.ID, c)
